@@ -64,7 +64,7 @@ class C01(core.Prop):
     ID = 'C01'
     IMPORTS = 'From FV Require Import Lib.Sym Model.C01 Model.C01Compile.'
     CASE_TYPE = 'C01Compile.fcase'
-    CHECK_FUN = 'C01Compile.check_fcase'
+    CHECK_FUN = 'C01Compile.check_fcase_wf'
     EXTRA_TARGETS = ['Model/C01.vo', 'Model/C01Compile.vo', 'Lib/Corr.vo']
     RULE = (
         'random well-formed segments of 3-9 nodes: a source, stateless workers with 1-2 inputs and 1-3 outputs (unused '
